@@ -50,9 +50,9 @@ Proof.
   exists (SM.ids fi), S, T, V, r, c.
   destruct (1 <? length fi / SM.nvols_of_shape sh) eqn:E1.
   - (* several files per volume *)
-    cbn [SM.files_info SM.with_edits] in H. fold fi in H.
+    cbn [SM.files_info] in H. fold fi in H.
     destruct vo as [w|].
-    + rewrite E1 in H. cbn [andb] in H.
+    + cbn [andb] in H.
       destruct (Bool.eqb (SM.ascending fi) w) eqn:Ew.
       * injection H as <- <-. cbn [SM.o_shape SM.o_order SM.o_flip SM.files_info SM.with_shape SM.with_files] in *.
         assert (Hl : length fi = S * T * V).
@@ -64,20 +64,18 @@ Proof.
         { discriminate. }
         intros _ s j Hs Hj. rewrite ids_map_chunks_rev, Hfpv, Hnv.
         apply map_chunks_rev_nth; [unfold SM.ids; rewrite map_length, Hl; nia | exact Hj | exact Hs].
-      * injection H as <- <-. cbn [SM.o_shape SM.o_order SM.o_flip SM.files_info SM.with_edits] in *. fold fi in Hlen |- *.
+      * injection H as <- <-. cbn [SM.o_shape SM.o_order SM.o_flip SM.files_info] in *. fold fi in Hlen |- *.
         repeat split; try assumption; try reflexivity.
         { unfold SM.ids. rewrite map_length. exact Hlen. }
         intros Hc; discriminate Hc.
-    + injection H as <- <-. cbn [SM.o_shape SM.o_order SM.o_flip SM.files_info SM.with_edits] in *. fold fi in Hlen |- *.
+    + injection H as <- <-. cbn [SM.o_shape SM.o_order SM.o_flip SM.files_info] in *. fold fi in Hlen |- *.
       repeat split; try assumption; try reflexivity.
       { unfold SM.ids. rewrite map_length. exact Hlen. }
       intros Hc; discriminate Hc.
-  - assert (Hflip : match vo with None => false | Some w => (1 <? length (SM.files_info s1) / SM.nvols_of_shape sh) && Bool.eqb (SM.ascending (SM.files_info s1)) w end = false).
-    { destruct vo; [fold fi; rewrite E1; reflexivity | reflexivity]. }
-    rewrite Hflip in H. injection H as <- <-. cbn [SM.o_shape SM.o_order SM.o_flip] in *. fold fi in Hlen |- *.
-    repeat split; try assumption; try reflexivity.
-    { unfold SM.ids. rewrite map_length. exact Hlen. }
-    intros Hc; discriminate Hc.
+  - destruct vo as [w|]; cbn [andb] in H; injection H as <- <-; cbn [SM.o_shape SM.o_order SM.o_flip] in *;
+      fold fi in Hlen |- *;
+      (repeat split; try assumption; try reflexivity;
+       [unfold SM.ids; rewrite map_length; exact Hlen | intros Hc; discriminate Hc]).
 Qed.
 
 Section WithV.
